@@ -22,6 +22,8 @@ pub fn general_alphabet() -> Vec<Mac> {
         c(Call, BSD, 0, 50_000),
         c(Call, BNEST, 0, 100_000),
         c(Call, BSDREV, 0, 100_000),
+        c(Call, BSDSELF, 0, 50_000),
+        c(Call, BSDSELFREV, 0, 100_000),
         c(Call, BLOG, 0, 50_000),
         c(Call, BWRITE, 0, 0),
         c(Call, AUTH, 0, 50_000),
@@ -95,6 +97,9 @@ pub enum TxVar {
     Eip1559Capped,
     /// 40 bytes of calldata (EIP-7623 floor above the intrinsic gas from Prague)
     Calldata40,
+    /// EIP-7702 authorization of an existing account (refund) with 1000 bytes of calldata, so that the
+    /// EIP-7623 floor lies between gas spent and gas spent minus the refund
+    SetCodeCalldata,
 }
 impl TxVar {
     pub fn since(self) -> SpecId {
@@ -102,7 +107,7 @@ impl TxVar {
             TxVar::Eip1559 | TxVar::Eip1559Capped => SpecId::LONDON,
             TxVar::AccessList => SpecId::BERLIN,
             TxVar::Blob => SpecId::CANCUN,
-            TxVar::SetCode => SpecId::PRAGUE,
+            TxVar::SetCode | TxVar::SetCodeCalldata => SpecId::PRAGUE,
             _ => SpecId::FRONTIER,
         }
     }
@@ -122,6 +127,7 @@ impl TxVar {
             TxVar::ZeroPrice,
             TxVar::Eip1559Capped,
             TxVar::Calldata40,
+            TxVar::SetCodeCalldata,
         ]
     }
 }
@@ -212,6 +218,11 @@ pub fn make_case(spec: SpecId, var: TxVar, code: &[u8]) -> Option<TxCase> {
             c.world.insert(AUTH, PlainAcc::eoa(100));
             c.tx.auth_list = Some(vec![AuthSpec { chain_id: 1, address: BWRITE, nonce: 0, authority: Some(AUTH) }]);
         }
+        TxVar::SetCodeCalldata => {
+            c.world.insert(AUTH, PlainAcc::eoa(100));
+            c.tx.auth_list = Some(vec![AuthSpec { chain_id: 1, address: BWRITE, nonce: 0, authority: Some(AUTH) }]);
+            c.tx.data = Bytes::from(vec![0x11u8; 1000]);
+        }
     }
     Some(c)
 }
@@ -223,7 +234,7 @@ pub fn alphabet_for(spec: SpecId, alpha: &[Mac]) -> Vec<Mac> {
 pub fn addr_name(a: Address) -> String {
     let names = [
         (SENDER, "SENDER"), (COINBASE, "COINBASE"), (A, "A"), (BOK, "BOK"), (BREV, "BREV"), (BHALT, "BHALT"), (BWRITE, "BWRITE"), (BSD, "BSD"),
-        (BLOG, "BLOG"), (BBURN, "BBURN"), (PROBE, "PROBE"), (BRET64, "BRET64"), (BNEST, "BNEST"), (BSDREV, "BSDREV"), (BW1, "BW1"), (RICH, "RICH"), (DUST, "DUST"), (STOR, "STOR"),
+        (BLOG, "BLOG"), (BBURN, "BBURN"), (PROBE, "PROBE"), (BRET64, "BRET64"), (BNEST, "BNEST"), (BSDREV, "BSDREV"), (BSDSELF, "BSDSELF"), (BSDSELFREV, "BSDSELFREV"), (BW1, "BW1"), (RICH, "RICH"), (DUST, "DUST"), (STOR, "STOR"),
         (EMPTY, "EMPTY"), (AUTH, "AUTH"),
     ];
     names.iter().find(|(x, _)| *x == a).map(|(_, n)| n.to_string()).unwrap_or_else(|| format!("{a}"))
